@@ -79,6 +79,10 @@ func (e *Exec) Aborted() bool { return e.aborted }
 type MutexState struct {
 	Writer  int // task id + 1 holding the write lock, 0 = none
 	Readers map[int]int
+	// WaitingWriters counts tasks blocked in RWMutex.Lock: as in sync.RWMutex, a pending
+	// writer makes every NEW RLock wait (also one of a task that already holds a read
+	// lock - a recursive read lock then deadlocks, as it does in reality).
+	WaitingWriters int
 }
 
 // PoolState models sync.Pool as a deterministic stack with ownership tracking.
@@ -529,6 +533,9 @@ var volatileText = regexp.MustCompile(`[^\s:"']*\.zap|0x[0-9a-f]+`)
 // executions of the same schedule: names of scratch files (every execution uses a
 // fresh one; they show up inside error texts of the operating system) and addresses.
 func normObs(s string) string { return volatileText.ReplaceAllString(s, "<volatile>") }
+
+// NormObs is normObs for callers outside the package.
+func NormObs(s string) string { return normObs(s) }
 
 // DefaultEnv runs fn with environment choice points answering their default
 // (used by harness code that only observes, so that the deviation budget is
